@@ -30,6 +30,7 @@ import PercevalModel.Lemmas.C17
 import PercevalModel.Lemmas.C17X
 import PercevalModel.Lemmas.C17R
 import PercevalModel.Lemmas.C17Y
+import PercevalModel.Lemmas.C17Z
 
 set_option linter.unusedSimpArgs false
 
@@ -1568,5 +1569,194 @@ theorem sent_object_never_creates_under_throttle (delay : Int) (s : YJob) (post 
     (fun _ _ => trivial)⟩
 
 example : (⟨born 1, none, 0⟩ : YJob).job.id.isSome = true := rfl
+
+/-! # wave 7: the two headline statements on the WHOLE object from the constructor on, under the real
+throttle (`Lemmas/C17Z.lean`) -/
+
+/-- "A job is sent at most once", on the whole object (status part + content of `_results` +
+`_previous_status_refresh`) from `RemoteJob(…)` on, for EVERY delay and EVERY clock (no monotonicity
+asked): over any history of timed operations — `execute_async` any number of times, status reads,
+cancel, rerun followed into the new job or not, `get_results` on any answer — that does not re-create
+the object from its dictionary, the handler receives at most one `create_job` call.  (Before: only
+`sent_at_most_once` for the unclocked machine, and `sent_object_never_creates_under_throttle` from a
+state that already has an identifier.)  Repaired code. -/
+theorem sent_at_most_once_whole_object (delay : Int) (ys : List YOp) (hno : ∀ y ∈ ys, y ≠ .reopen) :
+    totalCreatesR (run (ystep true delay) yinit ys).2 ≤ 1 := by
+  have h := yrun_budget delay ys yinit hno
+  have h0 : budget yinit.job = 1 := by decide
+  omega
+
+example : ∀ y ∈ [YOp.base 0 0 (.execute .conn), .base 0 0 (.execute (.ok 1)),
+    .getResults 5 9 .conn .conn .badJson], y ≠ .reopen := by decide
+
+/-- the hypothesis "no re-creation" is needed, code as it is: a job whose creation request failed comes
+back from `_from_dict(_to_dict())` as an unsent WAITING job, and `execute_async` on it creates again -/
+theorem sent_at_most_once_needs_no_reopen_witness :
+    totalCreatesR (run (ystep true 4) yinit
+      [.base 0 0 (.execute .conn), .reopen, .base 0 0 (.execute (.ok 1))]).2 = 2 := by
+  decide +kernel
+
+/-- the pinned code under the throttle: `execute_async(); execute_async()` creates two jobs -/
+theorem current_code_sends_twice_under_throttle_witness :
+    totalCreatesR (run (ystep false 4) yinit
+      [.base 0 0 (.execute (.ok 1)), .base 0 0 (.execute (.ok 2))]).2 = 2 := by
+  decide +kernel
+
+/-- the same for the clocked machine of part K (all operations, abstract results answer): no hypothesis
+at all — any delay, any times, any history -/
+theorem sent_at_most_once_under_throttle (delay : Int) (ks : List KOp) :
+    totalCreates (run (kstep true delay) kinit ks).2 ≤ 1 := by
+  have h := krun_budget delay ks kinit
+  have h0 : budget kinit.job = 1 := by decide
+  omega
+
+/-- an object that is not "never sent and still WAITING" — it has an identifier, or its creation request
+failed (unsent ERROR), or it was cancelled before being sent — never calls `create_job`, over every
+history at any times that does not re-create it from the dictionary; and it never becomes "never sent
+and WAITING" again.  Repaired code. -/
+theorem spent_object_never_creates (delay : Int) (s : YJob) (ys : List YOp)
+    (hsp : fresh s.job = false) (hno : ∀ y ∈ ys, y ≠ .reopen) :
+    totalCreatesR (run (ystep true delay) s ys).2 = 0 ∧ fresh (exec (ystep true delay) s ys).job = false := by
+  have h := yrun_budget delay ys s hno
+  have h0 : budget s.job = 0 := by simp [budget, hsp]
+  refine ⟨by omega, ?_⟩
+  cases hf : fresh (exec (ystep true delay) s ys).job
+  · rfl
+  · have h1 : budget (exec (ystep true delay) s ys).job = 1 := by simp [budget, hf]
+    omega
+
+example : fresh (⟨{ init with status := .error, msg := .createFailed, sentCount := 1 }, none, 0⟩ : YJob).job = false := by
+  decide
+
+/-- one step, any state: every `create_job` call is made by a never-sent WAITING object and ends that
+condition (`budget` = 1 for such an object, 0 otherwise) -/
+theorem create_uses_up_the_budget (delay : Int) (s : YJob) (y : YOp) (hy : y ≠ .reopen) :
+    countCreate (ystep true delay s y).2.calls + budget (ystep true delay s y).1.job ≤ budget s.job :=
+  ystep_budget delay s y hy
+
+example : YOp.base 0 0 (.execute .conn) ≠ .reopen := by decide
+
+/-- "keeps polling while unfinished" on the whole object under the REAL throttle (before:
+`polls_while_unfinished` with every read due, and `overdue_read_is_sent` for a bare status read): in
+every state with a sent job whose status is not SUCCESS / ERROR / CANCELED — UNKNOWN included —, for
+every delay, EVERY status-dependent operation (status()/is_*, cancel, rerun, `get_results` on any
+answer) whose first read comes more than the delay after the previous request begins with a status
+request for this very job.  Both versions of the code. -/
+theorem polls_while_unfinished_under_throttle (fixed : Bool) (delay : Int) (s : YJob) (y : YOp)
+    (hs : s.job.id.isSome = true) (hn : s.job.status.completed = false)
+    (hop : y.readsStatus = true) (hover : y.overdue delay s.prev = true) :
+    (ystep fixed delay s y).2.calls.head? = some (.status s.job.id) :=
+  ystep_head_status fixed delay s y ((statusDue_iff s.job).2 ⟨hs, hn⟩) hop hover
+
+example : (⟨{ born 1 with status := .unknown }, none, 3⟩ : YJob).job.id.isSome = true ∧
+    (⟨{ born 1 with status := .unknown }, none, 3⟩ : YJob).job.status.completed = false ∧
+    (YOp.getResults 8 8 .conn .conn .noKey).readsStatus = true ∧
+    (YOp.getResults 8 8 .conn .conn .noKey).overdue 4 3 = true := by decide
+
+/-- … over ANY history of the whole object (any operations incl. re-creation, any times): as long as the
+object at hand is sent and has not shown a final status, the next overdue status-dependent operation
+asks the server about exactly this job -/
+theorem keeps_polling_until_final_whole_object (fixed : Bool) (delay : Int) (ys : List YOp) (y : YOp)
+    (hs : (exec (ystep fixed delay) yinit ys).job.id.isSome = true)
+    (hn : (exec (ystep fixed delay) yinit ys).job.status.completed = false)
+    (hop : y.readsStatus = true) (hover : y.overdue delay (exec (ystep fixed delay) yinit ys).prev = true) :
+    Call.status (exec (ystep fixed delay) yinit ys).job.id ∈
+      (ystep fixed delay (exec (ystep fixed delay) yinit ys) y).2.calls :=
+  List.mem_of_mem_head? (polls_while_unfinished_under_throttle fixed delay _ y hs hn hop hover)
+
+example : (exec (ystep true 4) yinit [.base 0 0 (.execute (.ok 1)), .reopen]).job.id.isSome = true ∧
+    (exec (ystep true 4) yinit [.base 0 0 (.execute (.ok 1)), .reopen]).job.status.completed = false ∧
+    (YOp.base 5 5 (.cancel .conn .conn)).overdue 4 (exec (ystep true 4) yinit [.base 0 0 (.execute (.ok 1)), .reopen]).prev = true := by
+  decide +kernel
+
+/-- "overdue" is needed: inside the delay the same call on the same unfinished job asks nothing about
+the status (here it sends the cancel request on the held status) -/
+theorem polls_while_unfinished_needs_overdue_witness :
+    (ystep true 4 ⟨born 1, none, 3⟩ (.base 5 5 (.cancel (.status "completed" 0) (.ok 0)))).2.calls =
+      [.cancel (some 1)] := by
+  decide +kernel
+
+/-! ## necessity of hypotheses of earlier theorems (witnesses) -/
+
+/-- `final_absorbing_whole_object` needs "the rerun is not followed": following an accepted rerun of a
+final failed job, the object at hand has another identifier and is WAITING -/
+theorem final_absorbing_needs_noSwitch_witness :
+    (exec (ystep true 4) ⟨{ born 1 with status := .canceled }, none, 0⟩
+      [.base 9 9 (.rerun .conn .conn (.ok 2) true)]).job = born 2 := by
+  decide +kernel
+
+/-- `cached_results_stable_under_throttle` needs "no re-creation": after `_from_dict(_to_dict())` the
+final job with a truthy cached result sends the results request again -/
+theorem cached_results_stable_needs_keeps_witness :
+    (run (ystep true 4) ⟨{ born 1 with status := .success }, some (.num 7), 0⟩
+      [.reopen, .getResults 9 9 .conn .conn .noKey]).2.map (·.calls) = [[], [.results (some 1)]] := by
+  decide +kernel
+
+/-- `clocked_results_machine_negative_delay_is_plain` needs the negative delay: with the shipped
+positive delay a read inside it is held back, the plain machine sends it -/
+theorem negative_delay_is_needed_witness :
+    (run (ystep true 4) yinit [.base 1 1 (.execute (.ok 1)), .base 2 2 (.poll .status (.status "running" 0))]).2 ≠
+    (run (rstep true) rinit [.base (.execute (.ok 1)), .base (.poll .status (.status "running" 0))]).2 := by
+  decide +kernel
+
+/-! ## the streak law under the real throttle -/
+
+/-- The streak law for EVERY delay and EVERY clock (before: `streak_law` with every read due; under the
+clock only the direct oracle of the harness): a run of timed status reads of a sent unfinished job,
+of any length, whose requests all fail in the transient way.  A read inside the delay returns the last
+known status, sends nothing and does not count; the reads that reach the server are numbered on from
+the streak counter, number `n` returns the last known status while `n < 5` and raises its own error
+for every `n ≥ 5`, each is exactly one status request for this job and restarts the delay
+(`streakSpecAt`).  Clocked machine of part K, repaired code. -/
+theorem streak_law_under_throttle (delay : Int) (t : TJob) (xs : List (Int × Resp))
+    (hd : statusDue t.job = true) (ht : ∀ x ∈ xs, x.2.isTransient = true) :
+    (run (kstep true delay) t (xs.map fun x => ⟨x.1, x.1, .poll .status x.2⟩)).2 =
+      streakSpecAt delay t.job t.prev t.job.streak xs :=
+  streak_run_at delay t xs hd ht
+
+example : statusDue (⟨born 1, 0⟩ : TJob).job = true ∧
+    ∀ x ∈ [((5 : Int), Resp.conn), (6, .http 429)], x.2.isTransient = true := by decide
+
+/-- the same on the whole object (content of `_results` and all) -/
+theorem streak_law_whole_object_under_throttle (delay : Int) (s : YJob) (xs : List (Int × Resp))
+    (hd : statusDue s.job = true) (ht : ∀ x ∈ xs, x.2.isTransient = true) :
+    (run (ystep true delay) s (xs.map fun x => .base x.1 x.1 (.poll .status x.2))).2 =
+      (streakSpecAt delay s.job s.prev s.job.streak xs).map Out.toR := by
+  have h := yrun_base_noswitch true delay (xs.map fun x => (⟨x.1, x.1, .poll .status x.2⟩ : KOp))
+    (by intro k hk; simp only [List.mem_map] at hk; obtain ⟨x, _, rfl⟩ := hk; rfl) s
+  rw [List.map_map] at h
+  have h2 := streak_run_at delay s.t xs hd ht
+  rw [h2] at h
+  exact h
+
+example : statusDue (⟨born 1, none, 0⟩ : YJob).job = true := by decide
+
+/-- with all reads spaced by more than the delay it is the plain streak law -/
+theorem streakSpecAt_spaced_witness :
+    streakSpecAt 4 (born 1) 0 0 [(5, .conn), (10, .conn), (15, .conn), (20, .conn), (25, .conn), (30, .http 429)] =
+      streakSpec (born 1) 0 [.conn, .conn, .conn, .conn, .conn, .http 429] := by
+  decide +kernel
+
+/-- reads held back by the throttle do not count: four failures reach the server (times 5, 10, 15, 20),
+three reads in between are silent, so the read at time 25 is failure number 5 and raises -/
+theorem throttled_reads_do_not_count_witness :
+    (run (kstep true 4) ⟨born 1, 0⟩
+      ([(5, Resp.conn), (6, .conn), (10, .conn), (12, .conn), (15, .conn), (20, .conn), (21, .conn), (25, .conn)].map
+        fun x => ⟨x.1, x.1, .poll .status x.2⟩)).2.map (fun o => (o.res, o.calls.length)) =
+      [(.st .waiting, 1), (.st .waiting, 0), (.st .waiting, 1), (.st .waiting, 0), (.st .waiting, 1),
+       (.st .waiting, 1), (.st .waiting, 0), (.raised .conn, 1)] := by
+  decide +kernel
+
+/-
+  Still NOT proved (validated by the correspondence and the direct oracles only):
+  * `status_is_last_read` (ghost field `lastRead`) for the clocked machines at a positive delay — proved
+    only through `negative_delay_machine_is_plain` and, for final jobs, `final_job_ignores_clock`;
+  * the streak law under the throttle for runs of reads interleaved with cancel / rerun / get_results
+    (`streak_law_under_throttle` is about runs of `status()` reads);
+  * "sent at most once" through `_from_dict(_to_dict())` is FALSE for the code as it is
+    (`sent_at_most_once_needs_no_reopen_witness`); true from a state with an identifier
+    (`sent_object_never_creates_under_throttle`);
+  * `execute_sync` on the combined machine; model = code (differential testing).
+-/
 
 end PM.C17
